@@ -222,6 +222,24 @@ func (r *Rec) Create(give, ref *workflow.Plan, what string) error {
 	return r.Created_(ref, err, what, "CCreate")
 }
 
+// CallCancelled runs f with a context that is cancelled d after the call started (busy-waited, so that
+// sub-millisecond instants are hit). A panic is recorded as an observation.
+func (r *Rec) CallCancelled(what string, d time.Duration, f func(ctx context.Context) error) error {
+	var err error
+	cctx, cancel := context.WithCancel(r.Ctx)
+	defer cancel()
+	r.guard(what, func() {
+		start := time.Now()
+		go func() {
+			for time.Since(start) < d {
+			}
+			cancel()
+		}()
+		err = f(cctx)
+	})
+	return err
+}
+
 // Created_ records a create that the caller performed itself (Submit, killed child).
 func (r *Rec) Created_(ref *workflow.Plan, err error, what, ctor string) error {
 	if r.Dead {
